@@ -11,6 +11,7 @@ import (
 	"strings"
 
 	"github.com/robfig/soy/ast"
+	"github.com/robfig/soy/data"
 	"github.com/robfig/soy/soyhtml"
 	"github.com/robfig/soy/soyjs"
 	"github.com/robfig/soy/soymsg"
@@ -119,6 +120,12 @@ func c13Program(seed uint64, tier string) (files []srcFile, prog *gen.Program, h
 		files = bundleSources(prog.B, ref.Layout{})
 		files = append(files, c13Extras(variant, hasErr))
 	}
+	if r.P(1, 2) {
+		// a file that compiles but whose JavaScript cannot be generated: the function exists only in the HTML backend
+		// and is met in the middle of param / data / index expressions (JS generation fails part-way)
+		files = append(files, srcFile{"jsfail.soy", "{namespace jsf}\n/** @param? a */\n{template .t}\n{call .u}{param x: ($a ?: 1) + 7 * verifHtmlOnly($a) /}{/call}" +
+			"{call .u data=\"['x': verifHtmlOnly(2)]\" /}{let $l: [1, 2] /}{$l[verifHtmlOnly(0)]}\n{/template}\n/** @param? x */\n{template .u}{$x ?: ''}{/template}\n"})
+	}
 	return
 }
 
@@ -180,6 +187,7 @@ func init() {
 			return 300
 		},
 		Setup: func(tier string, seed uint64, config string) string {
+			soyhtml.Funcs["verifHtmlOnly"] = soyhtml.Func{Apply: func(a []data.Value) data.Value { return data.Int(0) }, ValidArgLengths: []int{1}}
 			if s := os.Getenv("VERIF_C13_PRINT"); s != "" {
 				sd, _ := strconv.ParseUint(s, 10, 64)
 				files, prog, _ := c13Program(sd, os.Getenv("VERIF_C13_TIER"))
